@@ -47,9 +47,9 @@ PROPS = {
         thorough=dict(checks=700, shards=16, timeout=3000),
     ),
     "C02": dict(
-        run="^(TestC02|TestC02Projection)$",
+        run="^TestC02$",
         level="exploration",
-        rule="histories of real API calls drawn by a rapid state machine from the reference model's current state (virtual clock; profile C02), followed by a drain phase where stated; oracle: observation-driven reference model of Pub/Sub semantics (must / must-not / may sets per pull); payloads from a JSON corpus (whitespace, unicode, HTML-sensitive, huge numbers) and generated strings, attribute maps, unicode ordering keys; fidelity by JSON value equality; independence by comparing the pull trace of one subscription in history H and in H projected onto that subscription; non-trivial = a pull response with >=2 messages on a topic with >=2 subscriptions with different filters (fidelity part); projection pairs whose removed operations include an ack/seek/delete on a sibling subscription; distinct by hash of the operation list",
+        rule="histories of real API calls drawn by a rapid state machine from the reference model's current state (virtual clock; profile C02), followed by a drain phase where stated; oracle: observation-driven reference model of Pub/Sub semantics (must / must-not / may sets per pull); payloads from a JSON corpus (whitespace, unicode, HTML-sensitive, huge numbers) and generated strings, attribute maps, unicode ordering keys; fidelity by JSON value equality; independence: every subscription has its own must / must-not sets in the model, so interference from a sibling subscription's acks, seeks, deletes or filters shows as a missing or not-rightful delivery on the victim; non-trivial = a pull response with >=2 messages on a topic with >=2 subscriptions with different filters; distinct by hash of the operation list",
         assumptions=['virtual clock: time.Now/Since/Until in actions/ and services/ are redirected by the build overlay', 'SQLite backend only', "every time comparison carries a 10 ms margin; anything inside a margin or inside the <1 s jitter window is 'may'"],
         quick=dict(checks=400, timeout=1200),
         thorough=dict(checks=600, shards=16, timeout=3000),
@@ -65,7 +65,7 @@ PROPS = {
     "C04": dict(
         run="^(TestC04|TestC04Concurrent)$",
         level="exploration",
-        rule="histories of real API calls drawn by a rapid state machine from the reference model's current state (virtual clock; profile C04), followed by a drain phase where stated; oracle: observation-driven reference model of Pub/Sub semantics (must / must-not / may sets per pull); one or two subscriptions, retry policies absent / min only / max only / both from 100 ms to hours, up to 140 steps of pull / modack / nack / advance landing just before and just after each deadline; non-trivial = a message reaches attempt >=3 with at least one modack in between (sequential); both pullers' fetch transactions fall inside one lease window (concurrent); distinct by hash of the operation list",
+        rule="histories of real API calls drawn by a rapid state machine from the reference model's current state (virtual clock; profile C04), followed by a drain phase where stated; oracle: observation-driven reference model of Pub/Sub semantics (must / must-not / may sets per pull); one or two subscriptions, retry policies absent / min only / max only / both from 100 ms to hours, up to 140 steps of pull / modack / nack / advance landing just before and just after each deadline; non-trivial = a message reaches attempt >=3 with at least one modack in between (sequential); >=2 pullers whose four transaction boundaries each are interleaved by the harness - all 70 merge orders for two pullers in the thorough tier, a third of them in quick, sampled orders for three pullers - inside one lease window (concurrent); distinct by hash of the operation list",
         assumptions=['virtual clock: time.Now/Since/Until in actions/ and services/ are redirected by the build overlay', 'SQLite backend only', "every time comparison carries a 10 ms margin; anything inside a margin or inside the <1 s jitter window is 'may'"],
         quick=dict(checks=300, timeout=1200),
         thorough=dict(checks=500, shards=16, timeout=3000),
